@@ -11,6 +11,9 @@ CONSTANTS
   Family = "core2"
   DropK1 = TRUE
   Queries <- MCQueries
+  FixEmptySnapshot = FALSE
+  FixBoolAdvance = FALSE
+  FixShouldMin = FALSE
   FirstAdvanceOK <- FirstAdvNoQ2
 VIEW View
 INVARIANT ResultOK
